@@ -42,7 +42,9 @@ def check_world(ref, plants, mode, acc, key=None):
     def far_pairs(o):
         return [(int(row.queryId), [p.queryShift for p in row.alignedPairs if abs(p.queryShift) > 200][:5])
                 for row in (o.result.rows if o.result is not None else [])]
-    obs = driver.run_world(w, mode, in_child=far_pairs)
+    # the output path a user gives is not always `something.xmap`: no extension at all, another extension in a dotted directory
+    out_name = 'o.xmap' if mode in ('best', 'separate') and plants[0][0] % 3 else ('planted', 'run.2/planted.txt')[plants[0][0] % 2]
+    obs = driver.run_world(w, mode, in_child=far_pairs, out_name=out_name)
     found = []
     case = dict(reference=[ref[0], ref[1], list(ref[2])], plants=[list(p) for p in plants], mode=mode)
     if obs.error:
